@@ -17,6 +17,14 @@ if [ "$tier" = replay ]; then   # ./checks/C18.sh replay <file>
     eng=$(jq -r .engine "$f"); pr=$(jq -r .property_of_engine "$f"); run=$(jq -r .run_index "$f"); s=$(jq -r .verif_seed "$f"); ta=$(jq -r .tags_a "$f"); tb=$(jq -r .tags_b "$f"); cmdp=$(jq -r .cmd "$f"); mode=$(jq -r .build "$f")
     T=$(mktemp -d /var/tmp/verif-xb.XXXXXX); trap 'rm -rf $T' EXIT
     REPO=${VERIF_REPO:-/repo}; [ -z "${VERIF_MODFLAG:-}" ] && cp $REPO/go.sum sim/go.sum
+    if [ "$(jq -r '.inrun // false' "$f")" = true ]; then   # a violation raised inside a run of the forced-family trace
+      tg=$ta
+      if [ "$mode" = test ]; then (cd sim && $GO test -c -vet=off ${VERIF_MODFLAG:-} -tags "$tg" -o "$T/b-$tg" ./cmd/$cmdp) || exit 2; else (cd sim && $GO build ${VERIF_MODFLAG:-} -tags "$tg" -o "$T/b-$tg" ./cmd/$cmdp) || exit 2; fi
+      VERIF_PROG_FAMILY=bn256 VERIF_ED_ONLY=1 "$T/b-$tg" trace -prop $pr -engine $eng -seed $s -from $run -to $((run+1)) -v 2>&1 | grep -v '^  ~ ' > "$T/t.txt"
+      if grep -q '^run=.* class=-' "$T/t.txt"; then echo "NOT-REPRODUCED property=C18 (run $run of $eng completes without a violation)"; exit 0; fi
+      echo "REPRODUCED property=C18 run $run of $eng"; grep -m2 -E '^run=|^  VIOLATION' "$T/t.txt" | cut -c1-600
+      echo "VIOLATION property=C18 replay=$f"; exit 1
+    fi
     for tg in "$ta" "$tb"; do
       if [ "$mode" = test ]; then (cd sim && $GO test -c -vet=off ${VERIF_MODFLAG:-} -tags "$tg" -o "$T/b-$tg" ./cmd/$cmdp) || exit 2; else (cd sim && $GO build ${VERIF_MODFLAG:-} -tags "$tg" -o "$T/b-$tg" ./cmd/$cmdp) || exit 2; fi
       VERIF_PROG_FAMILY=bn256 VERIF_ED_ONLY=1 "$T/b-$tg" trace -prop $pr -engine $eng -seed $s -from $run -to $((run+1)) -v 2>&1 | grep -v '^  ~ ' > "$T/t-$tg.txt"
@@ -45,6 +53,21 @@ compare() { # cmd mode engine prop tagsA tagsB
     [ -f "$T/$eng-$tg.txt" ] || VERIF_PROG_FAMILY=bn256 VERIF_ED_ONLY=1 "$T/$cmdp-$tg" trace -prop $pr -engine $eng -seed $seed -from 0 -to $K -v 2>&1 | grep -v '^  ~ ' > "$T/$eng-$tg.txt"
   done
   pairs=$((pairs+1)); runs_compared=$((runs_compared+K)); lines=$((lines+$(wc -l < "$T/$eng-$ta.txt")))
+  # violations raised INSIDE the traced runs of the engines that belong to C18 itself (replicated op
+  # logs of the forced BN family and of mod.Int): the transcripts would agree on them
+  if [ "$pr" = C18 ] && [ ! -f "$T/$eng.inrun" ]; then
+    : > "$T/$eng.inrun"
+    grep '^run=' "$T/$eng-$ta.txt" | grep -v ' class=- ' | head -3 | while read -r line; do
+      run=$(echo "$line" | grep -o '^run=[0-9]*' | cut -d= -f2); cls=$(echo "$line" | grep -o ' class=[^ ]*' | cut -d= -f2)
+      f="${VERIF_REPLAY_DIR:-replays}/C18-inrun-$eng-$seed-$run.json"
+      jq -n --arg e $eng --arg p $pr --argjson r $run --argjson s $seed --arg a "$ta" --arg c $cmdp --arg m $mode --arg cl "$cls" \
+         '{property:"C18", xbuild:true, inrun:true, "class":$cl, engine:$e, property_of_engine:$p, run_index:$r, verif_seed:$s, tags_a:$a, tags_b:$a, cmd:$c, build:$m}' > "$f"
+      case "$f" in /*) echo "VIOLATION property=C18 replay=$f";; *) echo "VIOLATION property=C18 replay=$PWD/$f";; esac
+      echo "  class=$cls"; grep -A3 "^run=$run " "$T/$eng-$ta.txt" | grep -m1 '^  VIOLATION' | cut -c1-600
+      echo x >> "$T/$eng.inrun"
+    done
+    viol=$((viol+$(wc -l < "$T/$eng.inrun")))
+  fi
   if ! cmp -s "$T/$eng-$ta.txt" "$T/$eng-$tb.txt"; then
     # first differing run
     run=$(diff <(grep -n '^run=' "$T/$eng-$ta.txt" | cut -d' ' -f1,3) <(grep -n '^run=' "$T/$eng-$tb.txt" | cut -d' ' -f1,3) | grep -o 'run=[0-9]*' | head -1 | cut -d= -f2)
@@ -58,6 +81,30 @@ compare() { # cmd mode engine prop tagsA tagsB
     viol=$((viol+1))
   fi
 }
+tm() { [ -n "${VERIF_TIMING:-}" ] && echo "T+$SECONDS $1" >&2; return 0; }
+tm start
+# all binaries first, then every transcript in parallel (16 cores); compare() finds the files
+for tg in verif verif,constantTime verif,constantTime,purego; do build xbuild "$tg" test "$T/xbuild-$tg"; done
+for tg in verif verif,generic; do build xbuildbn "$tg" plain "$T/xbuildbn-$tg"; done
+tm built
+gen() { # cmd engine prop tags runs   (long ranges are traced in 8 chunks side by side and concatenated in order)
+  local n=1 i; [ $5 -ge 400 ] && n=8
+  for i in $(seq 0 $((n-1))); do
+    VERIF_PROG_FAMILY=bn256 VERIF_ED_ONLY=1 "$T/$1-$4" trace -prop $3 -engine $2 -seed $seed -from $(( $5*i/n )) -to $(( $5*(i+1)/n )) -v 2>&1 | grep -v '^  ~ ' > "$T/$2-$4.part$i" &
+  done
+  wait
+  for i in $(seq 0 $((n-1))); do cat "$T/$2-$4.part$i"; done > "$T/$2-$4.txt.tmp"; rm -f "$T/$2-$4".part*; mv "$T/$2-$4.txt.tmp" "$T/$2-$4.txt"
+}
+for tg in verif verif,constantTime verif,constantTime,purego; do
+  for e in dsssim:C12 vsssim:C10 dkgsim:C11 pvsssim:C13; do gen xbuild ${e%:*} ${e#*:} "$tg" $K & done
+  gen xbuild modsim C18 "$tg" $((K*50)) &
+done
+for tg in verif verif,generic; do
+  gen xbuildbn signsim C09 "$tg" $K &
+  gen xbuildbn heterosim C18 "$tg" $((K*50)) &
+done
+wait
+tm traced
 for e in dsssim:C12 vsssim:C10 dkgsim:C11 pvsssim:C13; do
   compare xbuild test ${e%:*} ${e#*:} verif verif,constantTime
   compare xbuild test ${e%:*} ${e#*:} verif verif,constantTime,purego
@@ -68,9 +115,10 @@ compare xbuild test modsim C18 verif verif,constantTime
 compare xbuild test modsim C18 verif verif,constantTime,purego
 K=$((K/50))
 compare xbuildbn plain signsim C09 verif verif,generic
-K=$((K*10))   # the bn256 edge-limb programs are cheap: ten times as many runs
+K=$((K*50))   # the bn256 edge-limb programs are cheap: fifty times as many runs
 compare xbuildbn plain heterosim C18 verif verif,generic
-K=$((K/10))
+K=$((K/50))
+tm compared
 smp=$(head -c 600 "$T/dkgsim-verif,constantTime.txt" | jq -Rs .)
 xb_wall=$(( $(date +%s) - t0 ))
 jq -n --argjson pairs $pairs --argjson runs $runs_compared --argjson lines $lines --argjson v $viol --argjson w $xb_wall --argjson k $K --argjson smp "$smp" \
